@@ -16,8 +16,10 @@
 from __future__ import annotations
 
 import ast
+import re
 
-from ..cfg import ENTRY, EXIT
+from ..cfg import ENTRY, EXIT, header_parts
+from ..flow import Defs, all_defs_text, guard_facts, iterations, rejections
 from ..loader import AnalysisError, FuncInfo, dotted, norm, walk_no_nested
 from ..report import Ctx
 from ..selftest import Mutant
@@ -45,163 +47,177 @@ CLASS_OF = {
 ORDER = ["BOUND", "SUPPLIED", "UPSTREAM", "DEFAULT"]
 
 
-def _chain(loop: ast.For) -> list[tuple[str, ast.If]]:
-    """(tested container text, If node) for the if/elif chain that starts the loop body."""
-    first = next((s for s in loop.body if isinstance(s, ast.If)), None)
-    out = []
-    cur = first
-    while cur is not None:
-        test = cur.test
-        cont = None
-        cmp_ = test.values[0] if isinstance(test, ast.BoolOp) else test
-        if isinstance(cmp_, ast.Compare) and len(cmp_.ops) == 1 and isinstance(cmp_.ops[0], ast.In):
-            cont = norm(cmp_.comparators[0])
-        out.append((cont or f"?{norm(test)[:40]}", cur))
-        nxt = cur.orelse
-        cur = nxt[0] if len(nxt) == 1 and isinstance(nxt[0], ast.If) else None
-        if cur is None and nxt:
-            out.append(("<else>", ast.If(test=ast.Constant(True), body=nxt, orelse=[])))
-    return out
+RANK = {c: i for i, c in enumerate(ORDER)}
 
 
-def _precedence(ctx: Ctx, fn: FuncInfo, var_hint: str) -> None:
-    loops = [s for s in walk_no_nested(fn.node) if isinstance(s, ast.For) and norm(s.iter) == "func.parameters"]
+def _classify(text: str) -> str | None:
+    if text in CLASS_OF:
+        return CLASS_OF[text]
+    if text.endswith("._bound"):
+        return "BOUND"
+    if text.endswith(".output_to_func") or text.endswith(".all_output_names"):
+        return "UPSTREAM"
+    if text.endswith(".defaults"):
+        return "DEFAULT"
+    return None
+
+
+def _precedence(ctx: Ctx, fn: FuncInfo) -> None:  # noqa: C901
+    loops = [it for it in iterations(fn.node) if it["kind"] == "loop" and norm(it["iter"]).endswith(".parameters")]
     if not loops:
-        raise AnalysisError(f"{fn.qualname}: loop over func.parameters not found")
-    loop = loops[0]
-    ch = _chain(loop)
-    classes = [CLASS_OF.get(c, c) for c, _ in ch if c != "<else>"]
-    ok = classes == ORDER
-    ctx.add("1-precedence", fn, loop, ok, "bound > supplied > upstream output > default" if ok else f"argument resolution order is {classes}, required {ORDER}", key="chain-order")
+        raise AnalysisError(f"{fn.qualname}: loop over the function's parameters not found")
+    loop = loops[0]["node"]
     p = norm(loop.target)
-    for cont, node in ch:
-        if cont == "<else>":
-            ok = any(isinstance(x, ast.Raise) for st in node.body for x in ast.walk(st))
-            ctx.add("1-precedence", fn, node.body[0], ok, "an unresolvable argument raises" if ok else "an unresolvable argument is silently accepted", key="else-raises")
+    cfg = ctx.cfg(fn)
+    d = Defs(fn)
+    sources: list[tuple[int, str]] = []
+    for n in cfg.nodes():
+        st = cfg.stmt[n]
+        if not isinstance(st, (ast.Assign, ast.AnnAssign)) or st.value is None or not any(x is st for x in ast.walk(loop)):
             continue
-        if CLASS_OF.get(cont) == "UPSTREAM":
-            body = " ".join(norm(s) for s in node.body)
-            ok = ("self._run(" in body and f"output_name={p}" in body) or f"_load_from_store({p}, store)" in body
-            ctx.add("1-precedence", fn, node, ok, "upstream value comes from evaluating / loading that output" if ok else "the upstream arm does not evaluate the producing function", key="arm UPSTREAM")
+        v = d.resolve(st.value)
+        cls = None
+        if isinstance(v, ast.Subscript) and norm(v.slice) == p:
+            cls = _classify(norm(v.value))
+        elif any(isinstance(c, ast.Call) and ((norm(c.func).endswith("._run") and any(k.arg == "output_name" and norm(k.value) == p for k in c.keywords)) or (dotted(c.func) == "_load_from_store" and c.args and norm(c.args[0]) == p)) for c in ast.walk(v)):
+            cls = "UPSTREAM"
+        elif isinstance(v, ast.Subscript) and norm(v.slice) == p:
+            cls = f"?{norm(v.value)}"
+        if cls is None and isinstance(st.value, ast.Subscript) and norm(st.value.slice) == p:
+            cls = f"?{norm(d.resolve(st.value.value))}"
+        if cls is not None:
+            sources.append((n, cls))
+    seen_classes = [c for _n, c in sources]
+    unknown = [c for c in seen_classes if c.startswith("?")]
+    for c in unknown:
+        n = next(n for n, cc in sources if cc == c)
+        ctx.add("1-precedence", fn, cfg.stmt[n], False, f"the value of `{p}` is taken from `{c[1:]}`, which is none of bound / supplied / upstream output / default", key=f"source {c[1:40]}")
+    ctx.tri("1-precedence", fn, loop, set(ORDER) <= set(seen_classes), False, "values come from bound, supplied, upstream outputs and defaults", "", f"sources found: {seen_classes}", key="sources")
+    for n, cls in sources:
+        if cls.startswith("?"):
             continue
-        reads = [norm(s.value) for s in node.body if isinstance(s, ast.Assign)]
-        ok = any(r == f"{cont}[{p}]" for r in reads)
-        ctx.add("1-precedence", fn, node, ok, f"`{cont}` arm reads {cont}[{p}]" if ok else f"the arm testing `{cont}` takes its value from {reads}", key=f"arm {CLASS_OF.get(cont, cont)}")
+        facts = {}
+        for t, pol in guard_facts(cfg, d, n):
+            m = re.fullmatch(rf"{re.escape(p)} in (.+)", t)
+            if m and _classify(m.group(1)):
+                facts.setdefault(_classify(m.group(1)), pol)
+        missing = [h for h in ORDER if RANK[h] < RANK[cls] and facts.get(h) is not False]
+        ctx.add("1-precedence", fn, cfg.stmt[n], not missing, f"`{p}` is taken from {cls} only when it is in none of {[h for h in ORDER if RANK[h] < RANK[cls]]}" if not missing else
+                f"`{p}` is taken from {cls} without first excluding {missing}: precedence must be bound > supplied > upstream output > default", key=f"arm {cls}")
+    rj = [r for r in rejections(cfg, fn.node, d) if not r["dead"] and any(x is r["node"] for x in ast.walk(loop))]
+    ctx.tri("1-precedence", fn, loop, bool(rj), not rj and fn.name == "_get_func_args", "an unresolvable argument raises", "an unresolvable argument is silently accepted (no raise in the resolution loop)", "no raise in the loop", key="else-raises")
 
 
-def check(ctx: Ctx) -> None:  # noqa: C901, PLR0912, PLR0915
+def rule_precedence(ctx: Ctx) -> None:
     P = ctx.prog
-    # ------------------------------------------------------------ 1 precedence
-    _precedence(ctx, P.func(f"{BASE}.Pipeline._get_func_args"), "arg")
-    _precedence(ctx, P.func("pipefunc.map._run._func_kwargs"), "p")
+    _precedence(ctx, P.func(f"{BASE}.Pipeline._get_func_args"))
+    _precedence(ctx, P.func("pipefunc.map._run._func_kwargs"))
     call = P.func("pipefunc._pipefunc.PipeFunc.__call__")
-    merges = [s for s in walk_no_nested(call.node) if isinstance(s, ast.Assign) and isinstance(s.value, ast.BinOp) and isinstance(s.value.op, ast.BitOr)]
+    d = Defs(call)
+    merges = [d.resolve(s_.value) for s_ in walk_no_nested(call.node) if isinstance(s_, ast.Assign) and "_bound" in norm(d.resolve(s_.value)) and (isinstance(s_.value, (ast.BinOp, ast.Dict)))]
     if not merges:
-        raise AnalysisError("PipeFunc.__call__: dict merge not found")
-    ops: list[str] = []
+        ctx.add("1-precedence", call, call.node, None, "UNDECIDED: merge of defaults, supplied keywords and bound values not found in PipeFunc.__call__", key="call-merge")
+        return
 
-    def flat(e: ast.AST) -> None:
+    def flat(e: ast.AST) -> list[str]:
         if isinstance(e, ast.BinOp) and isinstance(e.op, ast.BitOr):
-            flat(e.left)
-            flat(e.right)
-        else:
-            ops.append(norm(e))
+            return flat(e.left) + flat(e.right)
+        if isinstance(e, ast.Dict) and all(k is None for k in e.keys):
+            return [x for v in e.values for x in flat(v)]
+        return [norm(e)]
 
-    flat(merges[0].value)
-    classes = [CLASS_OF.get(o, o) for o in ops]
-    ok = classes == ["DEFAULT", "SUPPLIED", "BOUND"]
-    ctx.add("1-precedence", call, merges[0], ok, "defaults | kwargs | bound: bound wins, then supplied, then defaults" if ok else f"merge order is {classes}: precedence differs from the pipeline's", key="call-merge")
-    inv = [s for s in walk_no_nested(call.node) if isinstance(s, ast.Assign) and "_inverse_renames" in norm(s.value)]
-    ok = bool(inv) and inv[0].lineno > merges[0].lineno and "self._inverse_renames.get(k, k): v" in norm(inv[0].value)
-    ctx.add("1-precedence", call, inv[0] if inv else call.node, ok, "renamed names are mapped back after merging" if ok else "inverse renames are not applied to the merged kwargs", key="inverse-renames")
+    classes = [_classify(o) or CLASS_OF.get(o) or f"?{o}" for o in flat(merges[0])]
+    known = [c for c in classes if not c.startswith("?")]
+    good = classes == ["DEFAULT", "SUPPLIED", "BOUND"]
+    inverted = len(known) == len(classes) and sorted(classes, key=lambda c: -RANK[c]) != classes
+    ctx.tri("1-precedence", call, call.node, good, inverted, "defaults | kwargs | bound: bound wins, then supplied, then defaults",
+            f"merge order is {classes} (right-most wins): the precedence differs from the pipeline's bound > supplied > default", f"merge operands {classes}", key="call-merge")
 
-    # ------------------------------------------------------------ 2 once
+
+def _has_call(st: ast.AST, name: str) -> bool:
+    return any(isinstance(c, ast.Call) and dotted(c.func).rsplit(".", 1)[-1] == name for part in header_parts(st) for c in ast.walk(part))
+
+
+def rule_once(ctx: Ctx) -> None:
+    P = ctx.prog
     run_ = P.func(f"{BASE}.Pipeline._run")
     cfg = ctx.cfg(run_)
-
-    def has_call(st: ast.AST, name: str) -> bool:
-        from ..cfg import header_parts
-
-        return any(isinstance(c, ast.Call) and dotted(c.func).rsplit(".", 1)[-1] == name for part in header_parts(st) for c in ast.walk(part))
-
-    exe = cfg.nodes(lambda s: has_call(s, "_execute_func"))
+    exe = cfg.nodes(lambda s: _has_call(s, "_execute_func"))
     if len(exe) != 1:
         raise AnalysisError(f"Pipeline._run: expected exactly one _execute_func call, found {len(exe)}")
-    ctx.add("2-once", run_, cfg.stmt[exe[0]], True, "single execution site in _run", key="single-site")
-    memo = [n for n in cfg.nodes(lambda s: isinstance(s, ast.If)) if any(isinstance(r, ast.Return) and r.value is not None and norm(r.value) == "all_results[output_name]" for r in cfg.stmt[n].body)
-            and "all_results" in norm(cfg.stmt[n].test) and "return_now" not in norm(cfg.stmt[n].test) and "result_from_cache" not in norm(cfg.stmt[n].test)]
-    ok = False
-    why = "no memo test `output_name in all_results` before execution"
-    if memo:
-        t = cfg.stmt[memo[0]].test
-        is_member = isinstance(t, ast.Compare) and len(t.ops) == 1 and isinstance(t.ops[0], ast.In) and norm(t.left) == "output_name" and norm(t.comparators[0]) == "all_results"
-        dom = cfg.dominates(memo[0], exe[0])
-        ok = is_member and dom
-        why = "memo membership test dominates the execution" if ok else ("the memo test is not a membership test (a stored None/falsy result is recomputed)" if not is_member else "the memo test does not dominate the execution")
-    ctx.add("2-once", run_, cfg.stmt[memo[0]] if memo else run_.node, ok, why, key="memo-test")
-    gfa = cfg.nodes(lambda s: has_call(s, "_get_func_args"))
-    ok = bool(gfa) and all(cfg.dominates(g, exe[0]) for g in gfa)
-    ctx.add("2-once", run_, cfg.stmt[gfa[0]] if gfa else run_.node, ok, "arguments (and thereby all dependencies) are resolved before execution" if ok else "_execute_func is reachable without _get_func_args", key="deps-first")
-    upd = set(cfg.nodes(lambda s: has_call(s, "_update_all_results")))
+    memo_p = "all_results"
+    tests = [n for n in cfg.nodes(lambda s: isinstance(s, ast.If)) if memo_p in norm(cfg.stmt[n].test) and cfg.dominates(n, exe[0])
+             and any(isinstance(r, ast.Return) for r in cfg.stmt[n].body) and not any(isinstance(x, ast.Name) and x.id != memo_p and x.id not in run_.param_names() for x in ast.walk(cfg.stmt[n].test))]
+    member = [n for n in tests if isinstance(cfg.stmt[n].test, ast.Compare) and len(cfg.stmt[n].test.ops) == 1 and isinstance(cfg.stmt[n].test.ops[0], ast.In) and norm(cfg.stmt[n].test.comparators[0]) == memo_p]
+    ctx.tri("2-once", run_, cfg.stmt[(member or tests or exe)[0]], bool(member), not member,
+            "a membership test of the memo dominates the execution", "the execution is not preceded by a membership test `output_name in all_results`" + (f" (the test is `{norm(cfg.stmt[tests[0]].test)}`: a stored None/falsy result is recomputed)" if tests else ": every request re-executes the function"), key="memo-test")
+    gfa = cfg.nodes(lambda s: _has_call(s, "_get_func_args"))
+    ctx.tri("2-once", run_, cfg.stmt[gfa[0]] if gfa else run_.node, bool(gfa) and all(cfg.dominates(g, exe[0]) for g in gfa), bool(gfa) and not all(cfg.dominates(g, exe[0]) for g in gfa),
+            "arguments (and thereby all dependencies) are resolved before execution", "_execute_func is reachable without _get_func_args", "_get_func_args call not found", key="deps-first")
+    upd = set(cfg.nodes(lambda s: _has_call(s, "_update_all_results")))
     ok = bool(upd) and cfg.must_pass(exe[0], EXIT, upd, normal_only=True)
-    ctx.add("2-once", run_, cfg.stmt[exe[0]], ok, "every normal path from the execution stores the result in the memo" if ok else "a path from _execute_func to the return skips _update_all_results (the function would run again)", key="memo-store")
-    rets = [r for r in walk_no_nested(run_.node) if isinstance(r, ast.Return) and r.value is not None]
-    ok = all(norm(r.value) == "all_results[output_name]" for r in rets)
-    ctx.add("2-once", run_, rets[-1], ok, "_run always answers from the memo" if ok else "_run returns something other than the memoised value", key="returns-memo")
+    wp = None if ok else cfg.witness_path(exe[0], EXIT, upd)
+    ctx.add("2-once", run_, cfg.stmt[exe[0]], ok, "every normal path from the execution stores the result in the memo" if ok else "a path from _execute_func to the return skips _update_all_results (the function would run again)", key="memo-store",
+            path=cfg.describe(wp, run_.module.relpath) if wp else None)
     rn = P.func(f"{BASE}.Pipeline.run")
-    seed = [s for s in walk_no_nested(rn.node) if isinstance(s, (ast.Assign, ast.AnnAssign)) and norm(s.targets[0] if isinstance(s, ast.Assign) else s.target) == "all_results"]
-    ok = bool(seed) and norm(seed[0].value) == "flat_scope_kwargs.copy()"
-    ctx.add("2-once", rn, seed[0] if seed else rn.node, ok, "the memo starts from the supplied keywords: a supplied intermediate replaces its producer" if ok else "run() no longer seeds the memo with the supplied keywords", key="seed")
+    d = Defs(rn)
+    calls = [c for c in ast.walk(rn.node) if isinstance(c, ast.Call) and norm(c.func).endswith("._run")]
+    if calls:
+        seed = next((k.value for k in calls[0].keywords if k.arg == memo_p), None)
+        t = norm(d.resolve(seed)) if seed is not None else "?"
+        defs_t = all_defs_text(rn.node, seed.id) if isinstance(seed, ast.Name) else t
+        seeded = "kwargs" in (t + defs_t)
+        ctx.tri("2-once", rn, calls[0], seeded, not seeded and (defs_t.strip() in ("{}", "dict()")), "the memo starts from the supplied keywords: a supplied intermediate replaces its producer",
+                "run() starts from an empty memo: a supplied intermediate value is ignored and its producer runs", f"memo seed `{(t + ' ' + defs_t)[:50]}`", key="seed")
     gfa_fn = P.func(f"{BASE}.Pipeline._get_func_args")
     rec = [c for c in ast.walk(gfa_fn.node) if isinstance(c, ast.Call) and norm(c.func) == "self._run"]
-    ok = bool(rec) and all({k.arg for k in c.keywords} >= {"output_name", "flat_scope_kwargs", "all_results", "full_output", "used_parameters"} and
-                           all(norm(k.value) == k.arg for k in c.keywords if k.arg != "output_name") for c in rec)
-    ctx.add("2-once", gfa_fn, rec[0] if rec else gfa_fn.node, ok, "the recursion shares the one memo / kwargs of this call" if ok else "the recursive _run call does not share the memo of the current evaluation", key="recursion-shares-memo")
+    shares = [c for c in rec if any(k.arg == memo_p and norm(k.value) == memo_p for k in c.keywords)]
+    ctx.tri("2-once", gfa_fn, rec[0] if rec else gfa_fn.node, bool(rec) and len(shares) == len(rec), bool(rec) and len(shares) != len(rec), "the recursion shares the one memo of this call",
+            "the recursive _run call does not pass on the memo of the current evaluation: shared dependencies run once per consumer", "recursive call not found", key="recursion-shares-memo")
 
-    # ------------------------------------------------------------ 3 routing
+
+def rule_routing(ctx: Ctx) -> None:
+    P = ctx.prog
     ur = P.func(f"{BASE}._update_all_results")
-    top = [s for s in ur.node.body if isinstance(s, ast.If)]
-    ok, why = False, "_update_all_results has no tuple branch"
-    if top:
-        t = norm(top[0].test)
-        plain = t == "isinstance(func.output_name, tuple)"
-        loops = [s for s in top[0].body if isinstance(s, ast.For) and norm(s.iter) == "func.output_name"]
-        stores = bool(loops) and any(isinstance(a, ast.Assign) and norm(a.targets[0]) == f"all_results[{norm(loops[0].target)}]" for a in ast.walk(loops[0]))
-        ok = plain and stores
-        why = "every name of a tuple output is stored, whatever was requested" if ok else (
-            f"single names are only stored under `{t}`: when the tuple itself is requested, readers indexing by name (NestedPipeFunc wrapper, full_output) fail" if not plain else "the per-name store is missing")
-        els = top[0].orelse
-        ok2 = bool(els) and any(norm(s) == "all_results[func.output_name] = r" for s in els)
-        ctx.add("3-routing", ur, top[0], ok2, "single outputs are stored under their name" if ok2 else "the single-output store is missing", key="single-store")
-    ctx.add("3-routing", ur, top[0] if top else ur.node, ok, why, key="all-names")
-    dp = P.func("pipefunc._pipefunc._default_output_picker")
-    ok = norm(dp.node.body[-1]) == "return output[output_name.index(name)]"
-    ctx.add("3-routing", dp, dp.node, ok, "default picker selects by position of the name" if ok else "default output picker no longer maps a name to its position", key="default-picker")
+    cfg = ctx.cfg(ur)
+    d = Defs(ur)
+    ps = ur.param_names()
+    requested = ps[2] if len(ps) > 2 else "output_name"
+    memo = ps[3] if len(ps) > 3 else "all_results"
+    per_name = [it for it in iterations(ur.node) if it["kind"] == "loop" and norm(it["iter"]).endswith(".output_name")
+                and any(isinstance(a, ast.Assign) and any(isinstance(t, ast.Subscript) and norm(t.value) == memo and norm(t.slice) == norm(it["target"]) for t in a.targets) for a in ast.walk(it["node"]))]
+    if per_name:
+        n = cfg.node(per_name[0]["node"])
+        facts = guard_facts(cfg, d, n)
+        on_request = [t for t, _pol in facts if re.search(rf"(?<![\w.]){re.escape(requested)}\b", t)]
+        ctx.add("3-routing", ur, per_name[0]["node"], not on_request, "every name of a tuple output is stored, whatever was requested" if not on_request else
+                f"single names are only stored under `{on_request[0]}`: when the tuple itself is requested, readers indexing by name (NestedPipeFunc wrapper, full_output) fail", key="all-names")
+    else:
+        ctx.add("3-routing", ur, ur.node, False, "no loop stores every name of a tuple output into the per-call results: consumers of a single name re-run the function or fail", key="all-names")
+    single = [a for a in ast.walk(ur.node) if isinstance(a, ast.Assign) and any(isinstance(t, ast.Subscript) and norm(t.value) == memo and norm(t.slice).endswith(".output_name") for t in a.targets)]
+    ctx.add("3-routing", ur, single[0] if single else ur.node, bool(single), "results are stored under the function's output name" if single else "nothing is stored under the function's own output name", key="single-store")
     nw = P.func("pipefunc._pipefunc._NestedFuncWrapper.__call__")
-    ok = "result_dict[self.output_name]" in norm(nw.node) and "tuple((result_dict[name] for name in self.output_name))" in norm(nw.node)
-    ctx.add("3-routing", nw, nw.node, ok, "nested wrapper reads the results by single name, in output_name order" if ok else "nested wrapper no longer reads by name", key="nested-reader")
+    ctx.tri("3-routing", nw, nw.node, "[self.output_name]" in norm(nw.node) and "for name in self.output_name" in norm(nw.node), False, "nested wrapper reads the results by single name, in output_name order", "", "nested reader not recognised", key="nested-reader")
 
-    # ------------------------------------------------------------ 4 surplus
+
+def rule_surplus(ctx: Ctx) -> None:
+    P = ctx.prog
+    rn = P.func(f"{BASE}.Pipeline.run")
     cfg = ctx.cfg(rn)
-    tests = cfg.nodes(lambda s: isinstance(s, ast.If) and "unused" in norm(s.test) and "used_parameters" in norm(s.test))
-    ok, why = False, "run() has no unused-keyword test"
-    if tests:
-        st = cfg.stmt[tests[0]]
-        raises = any(isinstance(x, ast.Raise) and "UnusedParametersError" in norm(x) for x in ast.walk(st))
-        final = [n for n in cfg.nodes(lambda s: isinstance(s, ast.Return))]
-        dom = all(cfg.dominates(tests[0], r) for r in final)
-        cond = norm(st.test)
-        shape_ok = cond.startswith("None not in used_parameters and") and "flat_scope_kwargs.keys() - set(used_parameters)" in cond
-        ok = raises and dom and shape_ok
-        why = "surplus keywords raise UnusedParametersError before any return (only a cache hit bypasses)" if ok else "the unused-keyword rejection can be bypassed or was weakened"
-    ctx.add("4-surplus", rn, cfg.stmt[tests[0]] if tests else rn.node, ok, why, key="unused-test")
-    used = [c for c in ast.walk(gfa_fn.node) if isinstance(c, ast.Call) and norm(c.func) == "used_parameters.add"]
-    ok = bool(used) and norm(used[0].args[0]) == norm([s for s in walk_no_nested(gfa_fn.node) if isinstance(s, ast.For)][0].target)
-    ctx.add("4-surplus", gfa_fn, used[0] if used else gfa_fn.node, ok, "every resolved parameter is recorded as used" if ok else "_get_func_args no longer records the parameters it consumed", key="records-used")
-    oc = [s for s in rn.node.body if isinstance(s, ast.If) and norm(s.test) == "output_name in kwargs"]
-    ctx.add("4-surplus", rn, oc[0] if oc else rn.node, bool(oc), "supplying the requested output itself is rejected" if oc else "run() accepts the requested output as a keyword", key="output-in-kwargs")
+    rj = [r for r in rejections(cfg, rn.node) if not r["dead"] and "Unused" in norm(r["node"])]
+    ctx.tri("4-surplus", rn, rj[0]["node"] if rj else rn.node, bool(rj), not rj, "surplus keywords raise UnusedParametersError", "run() never raises UnusedParametersError: surplus (mistyped) keywords are silently ignored", key="unused-test")
+    if rj:
+        conds = " && ".join(rj[0]["conds"])
+        weak = "used_parameters" not in conds
+        ctx.tri("4-surplus", rn, rj[0]["node"], "used_parameters" in conds and ("-" in conds or "difference" in conds or "not in" in conds or "<=" in conds or "issubset" in conds), weak,
+                "the rejection compares the supplied keywords with the parameters that were used", f"the rejection `{conds[:80]}` does not look at the used parameters", f"condition `{conds[:60]}`", key="unused-cond")
+    gfa_fn = P.func(f"{BASE}.Pipeline._get_func_args")
+    used = [c for c in ast.walk(gfa_fn.node) if isinstance(c, ast.Call) and isinstance(c.func, ast.Attribute) and c.func.attr in ("add", "update") and "used_parameters" in norm(c.func.value)]
+    ctx.tri("4-surplus", gfa_fn, used[0] if used else gfa_fn.node, bool(used), not used, "every resolved parameter is recorded as used", "_get_func_args no longer records the parameters it consumed: every call with keywords is rejected as having surplus ones", key="records-used")
 
-    # ------------------------------------------------------------ 5 order-free
+
+def rule_order_free(ctx: Ctx) -> None:
+    P = ctx.prog
     n5 = 0
     for m in ("pipefunc._pipeline._base", "pipefunc._pipeline._cache", "pipefunc._pipeline._validation", "pipefunc.map._run", "pipefunc.map._shapes", "pipefunc.map._prepare"):
         for fn in P.functions_in(m):
@@ -218,22 +234,29 @@ def check(ctx: Ctx) -> None:  # noqa: C901, PLR0912, PLR0915
                     ctx.add("5-order-free", fn, pos, False, f"`{norm(pos)}` uses the position of a function in the listing: results depend on listing order")
     ctx.add("5-order-free", BASE, "", n5 == 0, "no positional use of `.functions` in the evaluation machinery", key="scan")
 
-    # ------------------------------------------------------------ 6 invalidate
-    _invalidate(ctx)
 
-    # ------------------------------------------------------------ 7 entry
-    pc = P.func(f"{BASE}.Pipeline.__call__")
-    ok = norm(pc.node.body[-1]) == "return self.run(__output_name__, kwargs=kwargs)"
-    ctx.add("7-entry", pc, pc.node, ok, "pipeline(...) = run(output, kwargs=kwargs)" if ok else "Pipeline.__call__ no longer forwards to run with all kwargs", key="call")
-    fc = P.func(f"{BASE}._PipelineAsFunc.__call__")
-    ok = norm(fc.node.body[-1]) == "return self.pipeline.run(output_name=self.output_name, kwargs=kwargs)"
-    ctx.add("7-entry", fc, fc.node, ok, "Pipeline.func(...)(...) = run(output, kwargs=kwargs)" if ok else "_PipelineAsFunc.__call__ changed", key="func-call")
+def rule_entry(ctx: Ctx) -> None:
+    P = ctx.prog
+    for q, what in ((f"{BASE}.Pipeline.__call__", "pipeline(...)"), (f"{BASE}._PipelineAsFunc.__call__", "Pipeline.func(...)(...)"), (f"{BASE}._PipelineAsFunc.call_full_output", "call_full_output")):
+        f = P.func(q)
+        d = Defs(f)
+        kwp = f.node.args.kwarg.arg if f.node.args.kwarg else "kwargs"
+        runs = [c for c in ast.walk(f.node) if isinstance(c, ast.Call) and norm(c.func).endswith(".run")]
+        if not runs:
+            ctx.add("7-entry", f, f.node, None, f"UNDECIDED: {what}: call of run() not found", key=f"entry {f.qualname.rsplit('.', 2)[-2]}.{f.name}")
+            continue
+        passed = next((k.value for k in runs[0].keywords if k.arg == "kwargs"), None)
+        t = norm(d.resolve(passed)) if passed is not None else "?"
+        ctx.tri("7-entry", f, runs[0], t == kwp, passed is not None and t != kwp and isinstance(d.resolve(passed), (ast.DictComp, ast.Dict, ast.Call)), f"{what} forwards all keyword arguments to run()",
+                f"{what} forwards `{t[:60]}` instead of the keyword arguments it received: arguments are dropped or altered before evaluation", f"forwards `{t[:40]}`", key=f"entry {f.qualname.rsplit('.', 2)[-2]}.{f.name}")
     fo = P.func(f"{BASE}._PipelineAsFunc.call_full_output")
-    ok = norm(fo.node.body[-1]) == "return self.pipeline.run(self.output_name, full_output=True, kwargs=kwargs)"
-    ctx.add("7-entry", fo, fo.node, ok, "call_full_output = run(..., full_output=True)" if ok else "call_full_output changed", key="full-output")
-    ret = [r for r in walk_no_nested(rn.node) if isinstance(r, ast.Return)][-1]
-    ok = norm(ret.value) == "all_results if full_output else all_results[output_name]"
-    ctx.add("7-entry", rn, ret, ok, "full_output returns the memo of this very evaluation" if ok else "run() return value changed", key="run-return")
+    full = [k for c in ast.walk(fo.node) if isinstance(c, ast.Call) and norm(c.func).endswith(".run") for k in c.keywords if k.arg == "full_output"]
+    ctx.tri("7-entry", fo, fo.node, bool(full) and isinstance(full[0].value, ast.Constant) and full[0].value.value is True, not full, "call_full_output = run(..., full_output=True)", "call_full_output does not ask run() for the full output", key="full-output")
+
+
+def check(ctx: Ctx) -> None:
+    for rule in (rule_precedence, rule_once, rule_routing, rule_surplus, rule_order_free, _invalidate, rule_entry):
+        ctx.run(rule)
 
 
 MUTATED_FIELDS = {"_defaults", "_bound", "_renames", "mapspec"}
@@ -259,12 +282,11 @@ def _invalidate(ctx: Ctx) -> None:
     ctx.floor("6-invalidate.pipefunc", n, 6)
     ci = pf.methods["_clear_internal_cache"]
     src = norm(ci.node)
-    ok = "clear_cached_properties(self, PipeFunc)" in src and "for pipeline in self._pipelines" in src and "pipeline._clear_internal_cache()" in src
-    ctx.add("6-invalidate", ci, ci.node, ok, "clears own cached properties and those of every owning pipeline" if ok else "PipeFunc._clear_internal_cache no longer reaches the owning pipelines", key="clear-reaches-pipelines")
+    reaches = "pipefunc._pipeline._base.Pipeline._clear_internal_cache" in ctx.cg.reachable(ci.qualname) or ("_pipelines" in src and "_clear_internal_cache()" in src)
+    ctx.add("6-invalidate", ci, ci.node, reaches, "clears own cached properties and those of every owning pipeline" if reaches else "PipeFunc._clear_internal_cache no longer reaches the owning pipelines: their cached defaults / parameters / graph go stale", key="clear-reaches-pipelines")
     pl = P.cls(f"{BASE}.Pipeline")
     pci = pl.methods["_clear_internal_cache"]
-    ok = "clear_cached_properties(self)" in norm(pci.node)
-    ctx.add("6-invalidate", pci, pci.node, ok, "Pipeline clears all its cached properties" if ok else "Pipeline._clear_internal_cache changed", key="pipeline-clear")
+    ctx.tri("6-invalidate", pci, pci.node, "clear_cached_properties(self" in norm(pci.node), False, "Pipeline clears all its cached properties", "", "Pipeline._clear_internal_cache not recognised", key="pipeline-clear")
     m = 0
     for name, fn in pl.methods.items():
         if name in ("__init__",) or fn.is_property:
@@ -281,8 +303,9 @@ def _invalidate(ctx: Ctx) -> None:
             ctx.add("6-invalidate", fn, cfg.stmt[w], ok, "pipeline mutation is followed by cache invalidation on every path" if ok else "the pipeline is mutated without invalidating its cached views", key=f"{name}: {norm(cfg.stmt[w])[:60]}")
     ctx.floor("6-invalidate.pipeline", m, 5)
     cc = P.func("pipefunc._utils.clear_cached_properties")
-    ok = "isinstance(v, functools.cached_property)" in norm(cc.node) and "delattr(obj, k)" in norm(cc.node) and "cls = cls.__base__" in norm(cc.node)
-    ctx.add("6-invalidate", cc, cc.node, ok, "every cached_property of the class and its bases is dropped" if ok else "clear_cached_properties no longer drops every cached_property up the MRO", key="clear-impl")
+    t = norm(cc.node)
+    ctx.tri("6-invalidate", cc, cc.node, "cached_property" in t and "delattr(" in t and "__base__" in t, "delattr(" not in t and "__dict__.pop(" not in t, "every cached_property of the class and its bases is dropped",
+            "clear_cached_properties never deletes an attribute", "clear_cached_properties not recognised", key="clear-impl")
 
 
 B, R, PF = "pipefunc/_pipeline/_base.py", "pipefunc/map/_run.py", "pipefunc/_pipefunc.py"
